@@ -88,30 +88,22 @@ def habApp (data : Bytes) : Option Nat :=
   | .ok _ => some data.length
   | .error _ => none
 
-/-- the HAB parser of the bootable image accepts every container the HAB exporter emits - under the hypotheses of C07
-    `hab_roundtrip_partial`, in particular `hvis`: the application-offset heuristic of `HabContainer.parse` finds the
-    application (false for some configurations, C07's known finding) -/
-theorem hab_accepts_partial' (c : Hab.Cfg) (b : Hab.Built) (h : c.WF)
-    (hd : ∀ d, c.dcd = some d → Hab.DcdWF d) (hx : ∀ x, c.xmcd = some x → Hab.XmcdWF x)
-    (happ : b.app.length = c.appBin.length)
-    (hc : c.hasCsf = true → Hab.CsfWF c.version b.cmds ∧ (Hab.getAut 2 b.cmds).isSome = Hab.isEnc c.flags)
-    (hvis : Hab.findAppOffset (Hab.exportImage c b) c.entry Generated.HabConsts.knownAppOffsets = some c.appOff) :
+/-- the HAB parser of the bootable image accepts every container for which `HabContainer.parse` round-trips (`hrt` is the
+    conclusion of C07 `hab_roundtrip_partial`; the composition with that theorem's hypotheses is in Properties/XC14.lean) -/
+theorem hab_accepts_of_roundtrip' (c : Hab.Cfg) (b : Hab.Built) (p : Hab.Parsed)
+    (hrt : Hab.parse (Hab.exportImage c b) = .ok p) :
     habApp (Hab.exportImage c b) = some (Hab.exportImage c b).length := by
   unfold habApp
-  rw [SpsdkVerif.C07.hab_roundtrip_partial c b h hd hx happ hc hvis]
+  rw [hrt]
 
-theorem hab_delimits_partial' (c : Hab.Cfg) (b : Hab.Built) (h : c.WF)
-    (hd : ∀ d, c.dcd = some d → Hab.DcdWF d) (hx : ∀ x, c.xmcd = some x → Hab.XmcdWF x)
-    (happ : b.app.length = c.appBin.length)
-    (hc : c.hasCsf = true → Hab.CsfWF c.version b.cmds ∧ (Hab.getAut 2 b.cmds).isSome = Hab.isEnc c.flags)
-    (hvis : Hab.findAppOffset (Hab.exportImage c b) c.entry Generated.HabConsts.knownAppOffsets = some c.appOff)
-    (hne : Hab.exportImage c b ≠ [])
+theorem hab_delimits_of_roundtrip' (c : Hab.Cfg) (b : Hab.Built) (p : Hab.Parsed)
+    (hrt : Hab.parse (Hab.exportImage c b) = .ok p) (hne : Hab.exportImage c b ≠ [])
     (ext : Ext) (fcbSup : Bool) (s : Seg) (hp : s.parser = .greedy) (hsz : s.size < 0)
     (hext : ∀ data, ext.app s.kind data = habApp data) :
     parseSeg ext fcbSup s (Hab.exportImage c b ++ []) = .present (Hab.exportImage c b) := by
   apply app_delimits' ext fcbSup s _ [] (Or.inr ⟨Or.inl hp, rfl⟩) hsz hne
   rw [hext, List.append_nil]
-  exact hab_accepts_partial' c b h hd hx happ hc hvis
+  exact hab_accepts_of_roundtrip' c b p hrt
 
 /-! ### SB3.1 (header acceptance as the ROM model of C05 reads it) -/
 
@@ -140,6 +132,89 @@ theorem sb31_delimits' (h : Sb31.Header) (wf : Sb31.Spec.HeaderWF h) (body : Byt
   apply app_delimits' ext fcbSup s _ [] (Or.inr ⟨Or.inr hp, rfl⟩) hsz hne
   rw [hext, List.append_nil]
   exact sb31_accepts' h wf body
+
+/-! ### end to end for the MBI rows: no assumption on the container parser left -/
+
+theorem bimgD_segOK_iv (pat : Pattern) (s : Seg) (h : segOK pat s = true)
+    (hp : s.parser = .imageVersion ∨ s.parser = .imageVersionAp) : s.size = 4 := by
+  unfold segOK at h
+  simp only [Bool.and_eq_true, Bool.or_eq_true, decide_eq_true_eq, bne_iff_ne, beq_iff_eq, ne_eq] at h
+  obtain ⟨⟨⟨⟨⟨⟨⟨⟨⟨⟨⟨_, _⟩, _⟩, _⟩, h5⟩, h6⟩, _⟩, _⟩, _⟩, _⟩, _⟩, _⟩ := h
+  rcases hp with hp | hp
+  · rcases h6 with h | h
+    · exact absurd hp h
+    · exact h
+  · rcases h5 with h | h
+    · exact absurd hp h
+    · exact h
+
+/-- Rows whose segments are raw headers, image-version words, an FCB and an MBI (internal, recovery_spi_mbi, sd/emmc,
+    the flexspi_nor rows of LPC55S3x / MCX N / RW61x / RT5xx / RT6xx): parsing the exported image recovers every supplied segment
+    at its offset, for every init offset, with the container parser GIVEN BY THE C01 MODEL - the remaining hypotheses are about the
+    supplied bytes only: raw headers have their SIZE and are not padding, version words have 4 bytes, the FCB carries the tag
+    (and `FCB.parse` accepts it where the family has FCB support), the MBI is `exportImage` of a well-formed class / option
+    set that the class selection picks. -/
+theorem parse_export_mbi_row' {co : CryptoOps} {env : Mbi.Env} {c : Mbi.Cls} {cfg : Mbi.Cfg} {signer : Mbi.Signer}
+    (hm : Mbi.Hyp co env c cfg signer) (fixedType : Int) (family : List Mbi.Cls) (dek : Option Bytes)
+    (hdek : c.has .Mbi_MixinHmac = true → dek = cfg.hmacKey) (hdek' : c.family = some .encrypted → dek = cfg.hmacKey)
+    (e : Bytes) (he : Mbi.exportImage co c cfg signer = .ok e)
+    (hsel : Mbi.selectClass fixedType family e = some c)
+    (ext : Ext) (fcbSup : Bool) (d : Desc) (init : Nat) (raws : List (Option Bytes))
+    (h : Ctx d init raws) (hsup : Supplied init (mkSlots d.segs raws))
+    (hkinds : ∀ s ∈ mkSlots d.segs raws, s.seg.parser = .raw ∨ s.seg.parser = .imageVersion ∨ s.seg.parser = .imageVersionAp ∨
+      s.seg.parser = .fcb ∨ s.seg.parser = .greedy)
+    (hext : ∀ s ∈ mkSlots d.segs raws, s.seg.parser = .greedy → ∀ data, ext.app s.seg.kind data = mbiApp co env fixedType family dek data)
+    (hraw : ∀ s ∈ mkSlots d.segs raws, s.present init = true → s.seg.parser = .raw →
+      (s.bytes.length : Int) = s.seg.size ∧ isPadding s.seg s.bytes = false)
+    (hiv : ∀ s ∈ mkSlots d.segs raws, s.present init = true →
+      (s.seg.parser = .imageVersion ∨ s.seg.parser = .imageVersionAp) → s.bytes.length = 4)
+    (hfcb : ∀ s ∈ mkSlots d.segs raws, s.present init = true → s.seg.parser = .fcb →
+      (s.bytes.length : Int) = s.seg.size ∧
+      (s.bytes.take 4 = Generated.BimgTables.fcbTag ∨ s.bytes.take 4 = Generated.BimgTables.fcbTagSwapped) ∧
+      (fcbSup = true → ext.fcbOk s.bytes = true) ∧ (fcbSup = false → isPadding s.seg s.bytes = false))
+    (hmbi : ∀ s ∈ mkSlots d.segs raws, s.present init = true → s.seg.parser = .greedy → s.bytes = e)
+    (b : Bytes) (hb : exportImg d init raws = .ok b) :
+    walk ext fcbSup init d.segs b = .ok (expectedFound init (mkSlots d.segs raws)) := by
+  have hparts := bimg_descOK_parts d h.ok
+  have hsegOK : ∀ s ∈ mkSlots d.segs raws, segOK d.pattern s.seg = true := by
+    intro s hs
+    have hmap := bimg_mkSlots_segs d.segs raws h.len
+    have : s.seg ∈ d.segs := by
+      rw [← hmap]; exact List.mem_map_of_mem (f := fun x : Slot => x.seg) hs
+    exact hparts.2.1 _ this
+  refine parse_export' ext fcbSup d init raws h hsup ⟨?_, ?_⟩ b hb
+  · intro s hs hp rest hrest
+    have hok := hsegOK s hs
+    have P := bimgP_segOK_parts d.pattern s.seg hok
+    rcases hkinds s hs with hk | hk | hk | hk | hk
+    · obtain ⟨hl, hnp⟩ := hraw s hs hp hk
+      have hbh : s.seg.bootHeader = true := by
+        cases hbb : s.seg.bootHeader with
+        | true => rfl
+        | false =>
+          rcases P.2.2.2.2.2.2.2.1 hbb with h' | h' | h' <;> rw [hk] at h' <;> cases h'
+      exact raw_delimits' ext fcbSup s.seg s.bytes rest hk (P.2.2.2.2.2.1 hk hbh) hl hnp
+    · exact imageVersion_delimits' ext fcbSup s.seg s.bytes rest (Or.inl hk) (bimgD_segOK_iv _ _ hok (Or.inl hk)) (hiv s hs hp (Or.inl hk))
+    · exact imageVersion_delimits' ext fcbSup s.seg s.bytes rest (Or.inr hk) (bimgD_segOK_iv _ _ hok (Or.inr hk)) (hiv s hs hp (Or.inr hk))
+    · obtain ⟨hl, htag, hokf, hnp⟩ := hfcb s hs hp hk
+      exact fcb_delimits' ext fcbSup s.seg s.bytes rest hk (P.2.2.2.1 hk) hl htag hokf hnp
+    · have hrest' : rest = [] := hrest (Or.inl hk)
+      subst hrest'
+      have hbe := hmbi s hs hp hk
+      rw [hbe]
+      have hne : e ≠ [] := by
+        intro hnil
+        have hpos := (bimg_present_iff (init := init) (s := s)).1 hp
+        have hlen := bimg_bytes_length (s := s)
+        rw [hbe, hnil] at hlen
+        simp at hlen
+        omega
+      exact mbi_delimits' hm fixedType family dek hdek hdek' e he hne hsel ext fcbSup s.seg hk
+        (P.2.2.2.2.2.2.1 (Or.inl hk)).1 (hext s hs hk)
+  · intro s hs hp hf rest
+    have P := bimgP_segOK_parts d.pattern s.seg (hsegOK s hs)
+    have := P.2.2.2.2.2.2.2.2.1 hf
+    rcases hkinds s hs with hk | hk | hk | hk | hk <;> rw [hk] at this <;> cases this
 
 /-!
 ### not discharged - what is missing in the foreign models
